@@ -289,8 +289,12 @@ def _central_differences(fnode, h, x, d):
             continue
         n_q += 1
         D = norm_text(res(q.right))
-        if D not in ('2*%s' % d, '%s*2' % d, '2.0*%s' % d, '%s*2.0' % d, '%s+%s' % (d, d), '(2*%s)' % d):
-            problems.append((q.lineno, 'the difference of the two probes is divided by %s, not by twice the step %s' % (D, d)))
+
+        def twice(D_, s_):
+            return D_ in ('2*%s' % s_, '%s*2' % s_, '2.0*%s' % s_, '%s*2.0' % s_, '%s+%s' % (s_, s_), '(2*%s)' % s_, '2*(%s)' % s_, '(%s)*2' % s_,
+                          '2.0*(%s)' % s_, '(%s)*2.0' % s_)
+        disp = set()            # displacement(s) the element-store probes are moved by (resolved texts)
+        d_problem = None if twice(D, d) else 'the difference of the two probes is divided by %s, not by twice the step %s' % (D, d)
         P, M = a.args[0], b.args[0]
         # probes that are parameters of a local helper: what the helper is called with
         encl = next((f_ for f_ in ast.walk(fi.node) if isinstance(f_, (ast.FunctionDef, ast.Lambda)) and f_ is not fi.node
@@ -312,10 +316,14 @@ def _central_differences(fnode, h, x, d):
                       tgt = val = None
                       if isinstance(n, ast.Assign) and len(n.targets) == 1 and isinstance(n.targets[0], ast.Subscript) and norm_text(n.targets[0].value) == nm:
                           tgt, val = n.targets[0], n.value
-                          ok = isinstance(val, ast.BinOp) and isinstance(val.op, sign) and norm_text(val.left) == norm_text(tgt) and norm_text(res(val.right)) == d
+                          ok = isinstance(val, ast.BinOp) and isinstance(val.op, sign) and norm_text(val.left) == norm_text(tgt)
+                          if ok:
+                              disp.add(norm_text(res(val.right)))
                       elif isinstance(n, ast.AugAssign) and isinstance(n.target, ast.Subscript) and norm_text(n.target.value) == nm:
                           tgt = n.target
-                          ok = isinstance(n.op, sign) and norm_text(res(n.value)) == d
+                          ok = isinstance(n.op, sign)
+                          if ok:
+                              disp.add(norm_text(res(n.value)))
                       else:
                           continue
                       if not ok:
@@ -354,6 +362,18 @@ def _central_differences(fnode, h, x, d):
                           problems.append((q.lineno, 'step vector %s is not a row of step * identity' % t[:50]))
           else:
               problems.append((q.lineno, 'probe arguments %s / %s not recognised' % (norm_text(P)[:30], norm_text(M)[:30])))
+        # the quotient divides by twice the displacement the probes were actually given (the step parameter, or one step expression used on
+        # both sides, e.g. a step scaled with the coordinate)
+        if disp:
+            if len(disp) > 1:
+                problems.append((q.lineno, 'the two probes are displaced by different amounts (%s): the quotient is not a central difference' % ' / '.join(sorted(disp))[:120]))
+            else:
+                s_ = next(iter(disp))
+                if not twice(D, s_):
+                    problems.append((q.lineno, 'the probes are displaced by %s but their difference is divided by %s, not by twice that displacement: the column of every '
+                                               'coordinate for which the two differ is scaled' % (s_[:60], D)))
+        elif d_problem:
+            problems.append((q.lineno, d_problem))
     return n_q, problems
 
 def check(model, rep):
